@@ -12,7 +12,7 @@ import json, os, re, shutil, subprocess, sys, time
 from pathlib import Path
 
 VERIF = Path(__file__).resolve().parent.parent
-WT = Path("/tmp/wt-seed")
+WT = Path(os.environ.get("SEED_WT", "/tmp/wt-seed"))
 
 
 def sh(cmd, **kw):
@@ -121,7 +121,8 @@ def main():
         return
     pid = sys.argv[1]
     src = Path(sys.argv[2] if len(sys.argv) > 2 else (f"/tmp/seed-out/{pid}" if Path(f"/tmp/seed-out/{pid}").exists() else str(VERIF / "seeded" / pid)))
-    dest = VERIF / "seeded" / pid
+    tag = sys.argv[3] if len(sys.argv) > 3 else ""
+    dest = VERIF / "seeded" / (pid + tag)
     dest.mkdir(parents=True, exist_ok=True)
     old_history = []
     if (dest / "meta.json").exists():
